@@ -325,4 +325,151 @@ theorem openValid_open (S : Schema) (ty : TypeId) (at_ : Attrs) (content : List 
       | text s m => simp [openValid] at hv
       | leaf t a0 m => simp [openValid] at hv
 
+/-! ### `close` for a deletion: closing, the filling of the close level, re-opening -/
+
+theorem contentAfterFitsAt_valid (S : Schema) (hdet : DetS S) (hleaf : PM.FromDom.LeafOk S) (node : Node)
+    (index : Nat) (ty : TypeId) (st : Option Nat) (f : List Node)
+    (h : contentAfterFitsAt S node index ty st = .ok (some f)) : S.checkKids f = true := by
+  unfold contentAfterFitsAt at h
+  split at h
+  · simp [pure, Except.pure] at h
+  · obtain ⟨q, _, h⟩ := FM.bind_ok h
+    obtain ⟨fit, hfit, h⟩ := FM.bind_ok h
+    cases fit with
+    | none => simp [pure, Except.pure] at h
+    | some g =>
+      simp only at h
+      split at h
+      · simp [pure, Except.pure] at h
+      · have := pure_ok h
+        simp only [Option.some.injEq] at this
+        subst this
+        exact fillOpt_valid S hdet hleaf _ _ _ _ _ hfit
+
+theorem findCloseLevelLoop_fit_valid (S : Schema) (hdet : DetS S) (hleaf : PM.FromDom.LeafOk S) (doc : Node)
+    (rt : RPos) (fr : List FItem) : ∀ (n : Nat) (lv : CloseLevel),
+    findCloseLevelLoop S doc rt fr n = .ok (some lv) → S.checkKids lv.fit = true
+  | 0, lv, h => by simp [findCloseLevelLoop, pure, Except.pure] at h
+  | i + 1, lv, h => by
+    unfold findCloseLevelLoop at h
+    obtain ⟨it, _, h⟩ := FM.bind_ok h
+    simp only at h
+    obtain ⟨r, hr, h⟩ := FM.bind_ok h
+    cases r with
+    | none => exact findCloseLevelLoop_fit_valid S hdet hleaf doc rt fr i lv h
+    | some fit =>
+      simp only at h
+      obtain ⟨b, _, h⟩ := FM.bind_ok h
+      cases b with
+      | false => exact findCloseLevelLoop_fit_valid S hdet hleaf doc rt fr i lv h
+      | true =>
+        simp only [if_true] at h
+        obtain ⟨mv, _, h⟩ := FM.bind_ok h
+        have := pure_ok h
+        simp only [Option.some.injEq] at this
+        subst this
+        unfold contentAfterFits at hr
+        by_cases hd : rt.depth < i
+        · simp [hd, throw, throwThe, MonadExceptOf.throw] at hr
+        · rw [if_neg hd] at hr
+          exact contentAfterFitsAt_valid S hdet hleaf _ _ _ _ fit hr
+
+/-- `n` times `close_frontier_node` on the chain -/
+theorem closeMany_pureV (S : Schema) (hdet : DetS S) (hleaf : PM.FromDom.LeafOk S) : ∀ (n : Nat) (fr : List FItem)
+    (placed : List Node) (b x : Nat) (G : List Node), fr.length = b + 1 → n ≤ b → PureV S b placed G →
+    leftOpenValid S x G = true → ∀ (r : List FItem × List Node), closeMany S n fr placed = .ok r →
+    r.1.length = b - n + 1 ∧ ∃ G', PureV S (b - n) r.2 G' ∧ leftOpenValid S (x + n) G' = true
+  | 0, fr, placed, b, x, G, hl, _, hp, hG, r, h => by
+    have := pure_ok h
+    subst this
+    exact ⟨by simpa using hl, G, by simpa using hp, by simpa using hG⟩
+  | n + 1, fr, placed, b, x, G, hl, hn, hp, hG, r, h => by
+    unfold closeMany at h
+    obtain ⟨y, hy, h⟩ := FM.bind_ok h
+    obtain ⟨b', rfl⟩ : ∃ b', b = b' + 1 := ⟨b - 1, by omega⟩
+    obtain ⟨hl1, G1, hp1, hG1⟩ := closeFrontierNode_pureV S hdet hleaf fr placed b' x G (by omega) hp hG y hy
+    obtain ⟨hl2, G2, hp2, hG2⟩ := closeMany_pureV S hdet hleaf n y.1 y.2 b' (x + 1) G1 hl1 (by omega) hp1 hG1 r h
+    refine ⟨by omega, G2, ?_, ?_⟩
+    · rw [show b' + 1 - (n + 1) = b' - n by omega]; exact hp2
+    · rw [show x + (n + 1) = x + 1 + n by omega]; exact hG2
+
+/-- the re-opening loop of `close`: every re-opened node carries valid fillers -/
+theorem reopen_pureV (S : Schema) (hdet : DetS S) (hleaf : PM.FromDom.LeafOk S) {doc : Node} {p : Nat} {mv : RPos}
+    (hmv : doc.resolve p = some mv) (hattrs : S.nodeAttrsOK doc = true) : ∀ (n d : Nat) (fr : List FItem)
+    (placed : List Node) (bb j x : Nat) (G : List Node), fr.length = bb + j + 1 → PureV S bb placed G →
+    openValid S x j G = true → 1 ≤ d → (∀ k, d ≤ k → k < d + n → k ≤ mv.depth) →
+    ∀ (r : List FItem × List Node), reopen S mv n d fr placed = .ok r →
+    ∃ G', PureV S bb r.2 G' ∧ openValid S x (j + n) G' = true
+  | 0, d, fr, placed, bb, j, x, G, _, hp, hG, _, _, r, h => by
+    have := pure_ok h
+    subst this
+    exact ⟨G, hp, by simpa using hG⟩
+  | n + 1, d, fr, placed, bb, j, x, G, hl, hp, hG, hd, hrange, r, h => by
+    have R := resolve_resolved hmv
+    have hdle : d ≤ mv.depth := hrange d (Nat.le_refl _) (by omega)
+    obtain ⟨t, a, m, ks, hn⟩ := resolve_node_isElem hmv d hd hdle
+    have hok := R.node_attrsOK hattrs d hdle
+    rw [hn] at hok
+    obtain ⟨h1, h2, a', h3⟩ := nodeAttrsOK_elem hok
+    unfold reopen at h
+    simp only [hn, Schema.tyOf, Node.tyOr, Node.kids, Node.attrs] at h
+    obtain ⟨add, hadd, h⟩ := FM.bind_ok h
+    obtain ⟨y, hy, h⟩ := FM.bind_ok h
+    have hcontent : S.checkKids (add.getD []) = true := by
+      cases add with
+      | none => simp
+      | some ns => exact fillOpt_valid S hdet hleaf _ _ _ _ ns hadd
+    -- the node that is opened
+    unfold openFrontierNode at hy
+    obtain ⟨top, _, hy⟩ := FM.bind_ok hy
+    obtain ⟨q, _, hy⟩ := FM.bind_ok hy
+    obtain ⟨node, hnode, hy⟩ := FM.bind_ok hy
+    obtain ⟨p', hp', hy⟩ := FM.bind_ok hy
+    have := pure_ok hy
+    subst this
+    have hnode' : node = .elem t a' [] (add.getD []) := by
+      rw [createNodeO_ok S t a (add.getD []) h1 a' h3] at hnode
+      simp only [Except.ok.injEq] at hnode
+      rw [← hnode]
+      unfold Schema.mkNodeO; simp [h2]
+    subst hnode'
+    rw [show fr.length - 1 = bb + j by omega] at hp'
+    obtain ⟨G1, hG1, hp1⟩ := addToFragment_pure S bb j placed G _ p' hp hp'
+    have hv1 := openValid_open S t a' (add.getD []) hcontent j x G G1 hG1 hG
+    obtain ⟨G2, hp2, hv2⟩ := reopen_pureV S hdet hleaf hmv hattrs n (d + 1) _ p' bb (j + 1) x G1
+      (by simp; omega) hp1 hv1 (by omega) (fun k h1 h2 => hrange k (by omega) (by omega)) r h
+    exact ⟨G2, hp2, by rw [show j + (n + 1) = j + 1 + n by omega]; exact hv2⟩
+
+/-- lowering the open end along the chain: fewer levels open on the right is still valid when the start
+    spine covers them -/
+theorem PureV_lower (S : Schema) : ∀ (d x b : Nat) (c G : List Node), PureV S d c G →
+    leftOpenValid S x G = true → b ≤ d → openValid S (d + x) b c = true
+  | 0, x, b, c, G, hp, hG, hb => by
+    cases hp
+    have : b = 0 := by omega
+    subst this
+    simpa [openValid_zero_right] using hG
+  | d + 1, x, b, c, G, ⟨t, a, m, k, hc, hm, hk⟩, hG, hb => by
+    subst hc
+    rw [show d + 1 + x = (d + x) + 1 by omega]
+    cases b with
+    | zero =>
+      have ih := PureV_lower S d x 0 k G hk hG (Nat.zero_le _)
+      rw [openValid_zero_right] at ih
+      simp [openValid, leftOpenValid, hm, ih]
+    | succ b =>
+      have ih := PureV_lower S d x b k G hk hG (by omega)
+      simp [openValid, hm, ih]
+
+/-- the chain `Fitter.__init__` builds, with the (canonical) marks of the document's nodes -/
+theorem nestPlaced_pureV (S : Schema) (rf : RPos) : ∀ (l : List Nat),
+    (∀ i ∈ l, ∃ t a m k, rf.node (i + 1) = .elem t a m k ∧ canonicalMarks S m = true) →
+    PureV S l.length (nestPlaced rf l) []
+  | [], _ => rfl
+  | i :: l, h => by
+    obtain ⟨t, a, m, k, hn, hm⟩ := h i (by simp)
+    have ih := nestPlaced_pureV S rf l (fun j hj => h j (by simp [hj]))
+    simp only [nestPlaced, List.foldr_cons, hn, Node.withKids, List.length_cons] at ih ⊢
+    exact ⟨t, a, m, _, rfl, hm, ih⟩
+
 end PM
